@@ -28,6 +28,36 @@ def innermost_delta_frame(stderr_text):
     return None
 
 
+def delta_frames(stderr_text):
+    out = []
+    for line in stderr_text.splitlines():
+        m = FRAME_RE.match(line)
+        if not m:
+            continue
+        fn = m.group(1).strip()
+        if 'delta::' in fn and 'verif_hooks' not in fn and not fn.startswith(('core::', 'std::', 'alloc::')):
+            fn = re.sub(r'::h[0-9a-f]{16}$', '', fn)
+            out.append(fn.replace('{{closure}}', '{closure}'))
+    return out
+
+
+def context_frame(stderr_text):
+    """First frame from another top-level module than the innermost one: tells generic assertion sites apart
+    by the path that led to them."""
+    fr = delta_frames(stderr_text)
+    if not fr:
+        return None
+
+    def top(fn):
+        m = re.search(r'delta::([a-z_]+)', fn)
+        return m.group(1) if m else ''
+    t0 = top(fr[0])
+    for fn in fr[1:]:
+        if top(fn) != t0 and top(fn) not in ('delta', 'run_app', 'main'):
+            return fn
+    return None
+
+
 def classify(res):
     """Returns None if the execution ended normally (whatever the exit status), else a dict
     {kind, signature, detail}.  kinds: panic, unreachable, signal, abort, hang."""
@@ -42,7 +72,11 @@ def classify(res):
             kind = 'unreachable'
         else:
             kind = 'panic'
-        return {'kind': kind, 'signature': '%s|%s|%s' % (kind, fn, normalise_message(msg)),
+        ctx = context_frame(err)
+        sig = '%s|%s|%s' % (kind, fn, normalise_message(msg))
+        if ctx:
+            sig += '|via:' + ctx
+        return {'kind': kind, 'signature': sig,
                 'detail': '%s:%s: %s' % (fil, line, msg[:200]), 'file': fil}
     if 'This should not be possible' in err:
         # delta_unreachable prints and exits with error code
